@@ -1598,6 +1598,8 @@ def run(rep: vlib.Reporter, tier: str, seed: int) -> None:
                     "group (<= 5 requested columns) and a derived group whose options are merged into its inputs. non-trivial = an ops "
                     "sequence with both succeeding and raising calls / an equal pair written differently / >1 group with a shared group / "
                     ">1 calculation call")
+    from harness import srctie      # source-text tie (Props/SrcTie.v): Options.get / items / add / add_to_group, the validator and
+    found = (not srctie.check(rep)) or found    # Features.merge_options regenerated from the source text = Model/Options.v
     if not pr.ok and not found:
         rep.finding("proof-broken", "Props/C15.v no longer checks",
                     {"failed_files": pr.failed_files, "forbidden": pr.forbidden, "log_tail": pr.log[-3000:]}, found_input=False)
@@ -1608,6 +1610,10 @@ def replay(path: str) -> int:
     r = json.load(open(path))["replay"]
     print(json.dumps(r, indent=1)[:4000])
     kind = r.get("kind")
+    if kind == "srctie":
+        from harness import srctie
+        srctie.replay(r)
+        return 0
     if kind == "ops":
         obs = run_sequence(r["case"])
         print("now: init_err", obs["init_err"], "errors", obs["errs"], "disjoint", obs["disjoint_ok"])
